@@ -370,7 +370,8 @@ impl System for ASys {
     }
 
     fn key(&self) -> Self::Key {
-        (canon(self.core.snap(), &self.mon), self.faults, self.last_fault.clone())
+        // (the downlinks an application has not collected yet are state the front-end can act on)
+        (canon(self.core.snap(), &self.mon), self.faults, format!("{}|q{}", self.last_fault, self.core.dev.verif_queued_downlinks()))
     }
     fn alive(&self) -> bool {
         self.core.dead.is_none()
@@ -435,6 +436,15 @@ pub fn run(tier: Tier, replay: Option<&str>) {
         runs.push(RunCfg { front: "nb".into(), class_c: false, bound, dev: d.clone() });
         runs.push(RunCfg { front: "async".into(), class_c: true, bound, dev: d });
     }
+    // an application that leaves received downlinks in the queue through the following uplink
+    for class_c in [false, true] {
+        let mut d = DevCfg::abp("EU868");
+        d.hold_downlinks = true;
+        runs.push(RunCfg { front: "async".into(), class_c, bound, dev: d.clone() });
+        if !class_c {
+            runs.push(RunCfg { front: "nb".into(), class_c: false, bound, dev: d });
+        }
+    }
     // sessions one uplink before each ADR back-off step (64 uplinks without a downlink: ADRACKReq; 96, 128: a
     // step down), at the lowest data rate, where nothing is left to step to, and above it
     for region in ["EU868", "US915"] {
@@ -474,7 +484,7 @@ pub fn run(tier: Tier, replay: Option<&str>) {
         ],
         "evaluations": ctx.evals(),
         "distinct_nontrivial": states,
-        "rule": "BFS over histories of whole uplink transactions (and Class C idle listening) on the real nb and async devices; every transaction is run with every receive outcome of the alphabet (nothing, RX1 hit, RX2 hit confirmed, invalid frame, MAC-only downlink on port 0 / in FOpts, accepted LinkADRReq asking for 2 / 15 transmissions per uplink, Class C downlink before RX1 / RX2) and with a radio fault at every radio call position of the transaction - a single failing call (nb: the first or the second radio call of the step), or an outage spanning 2 / 3 consecutive radio calls (nb: the retried step fails again) or 2 calls / the rest of the public call (async) -, at most `fault_bound` such deviations per history; boards with receive windows of 100 / 1000 / 2500 ms and window offsets 0 / 30 ms; sessions start with fcnt_up at 0, 0xFFFE, 0xFFFF, 2^32-3, 2^32-2, 2^32-1, and (fault-free, depth 3) one uplink before each ADR back-off threshold (63, 95, 127 uplinks without a downlink) at the lowest and at a higher data rate; every frame handed to the radio is decoded by the reference codec (counter recovered by MIC verification)",
+        "rule": "BFS over histories of whole uplink transactions (and Class C idle listening) on the real nb and async devices, also with an application that leaves received downlinks in the queue through the next uplink; every transaction is run with every receive outcome of the alphabet (nothing, RX1 hit, RX2 hit confirmed, invalid frame, MAC-only downlink on port 0 / in FOpts, accepted LinkADRReq asking for 2 / 15 transmissions per uplink, Class C downlink before RX1 / RX2) and with a radio fault at every radio call position of the transaction - a single failing call (nb: the first or the second radio call of the step), or an outage spanning 2 / 3 consecutive radio calls (nb: the retried step fails again) or 2 calls / the rest of the public call (async) -, at most `fault_bound` such deviations per history; boards with receive windows of 100 / 1000 / 2500 ms and window offsets 0 / 30 ms; sessions start with fcnt_up at 0, 0xFFFE, 0xFFFF, 2^32-3, 2^32-2, 2^32-1, and (fault-free, depth 3) one uplink before each ADR back-off threshold (63, 95, 127 uplinks without a downlink) at the lowest and at a higher data rate; every frame handed to the radio is decoded by the reference codec (counter recovered by MIC verification)",
         "fault_bound_completed": bound,
         "depth": depth,
         "configurations": runs.len(),
